@@ -28,7 +28,7 @@ from workloads import feeds
 
 PROP = 'C06'
 OPTABLE = 'checks.c06_ops'
-STORAGES = {'sqlA': 'sql', 'sqlB': 'sql', 'csvA': 'csv', 'csvB': 'csv', 'inlA': 'inline', 'inlB': 'inline'}
+STORAGES = {'sqlA': 'sql', 'sqlA2': 'sql2', 'sqlB': 'sql', 'csvA': 'csv', 'csvB': 'csv', 'inlA': 'inline', 'inlB': 'inline'}
 TORN = '<torn cache file>'
 
 
@@ -60,7 +60,8 @@ def gen_history(rng: random.Random) -> dict:
 
 
 def family(storage: str) -> str:
-    return 'sql' if STORAGES[storage] == 'sql' else 'mono'
+    """Feeds whose statements compile to the same SQL text (same physical table names) share cache keys."""
+    return STORAGES[storage] if STORAGES[storage].startswith('sql') else 'mono'
 
 
 class Run:
@@ -98,13 +99,15 @@ class Run:
         self.box.destroy()
 
     def location(self, storage: str) -> str:
-        return os.path.join(self.data, storage + ('.db' if STORAGES[storage] == 'sql' else ''))
+        if STORAGES[storage].startswith('sql'):
+            return os.path.join(self.data, storage[:4] + '.db')  # sqlA and sqlA2 live in the same database file
+        return os.path.join(self.data, storage)
 
     def flush(self, storage: str) -> None:
         kind = STORAGES[storage]
         rows = {k: [tuple(r) for r in v] for k, v in self.contents[storage].items()}
-        if kind == 'sql':
-            feeds.write_sqlite(self.location(storage), rows)
+        if kind.startswith('sql'):
+            feeds.write_sqlite(self.location(storage), rows, kind[3:])
         elif kind == 'csv':
             feeds.write_csv(self.location(storage), rows)
 
